@@ -1193,14 +1193,14 @@ fn directed(out: &mut dyn Write) {
     writeln!(out, "END").unwrap();
 }
 
-/// builder cases behind known C02 findings, generated on every run
+/// builder cases behind former C02 findings (fixed in 384faed / a9d6f1f), generated on every run
 fn directed_builders(out: &mut dyn Write) {
     writeln!(out, "T codec directed-build").unwrap();
-    // will properties without a will message: stored in the packet, never serialised
+    // will properties without a will message: rejected by the builder since a9d6f1f
     let wp: Properties = vec![Property::WillDelayInterval(WillDelayInterval::new(1).unwrap())];
     b_line(out, 5, 2, 0x10, &format!("cs=none ka=none cid=none will=none user=none pass=none props=none wprops={}", props_hex(&wp)),
         || v5::Connect::builder().will_props(wp.clone()).build(), |_, body| v5::Connect::parse(body));
-    // UNSUBACK v3.1.1 with a 32-bit packet id: remaining length hard-wired to 2
+    // UNSUBACK v3.1.1 with a 32-bit packet id: remaining length = id width since 384faed
     b_line(out, 4, 4, 0xb0, "pid=1", || v3::GenericUnsuback::<u32>::builder().packet_id(1u32).build(), |_, body| v3::GenericUnsuback::<u32>::parse(body));
     b_line(out, 4, 2, 0xb0, "pid=1", || v3::GenericUnsuback::<u16>::builder().packet_id(1u16).build(), |_, body| v3::GenericUnsuback::<u16>::parse(body));
     writeln!(out, "END").unwrap();
